@@ -21,6 +21,8 @@ SOURCES = {
     'bitar::archive_reader::ArchiveReader::read_at': V2 | C,
     'bitar::archive_reader::ArchiveReader::read_chunks': V2 | C,
     'reqwest::async_impl::request::RequestBuilder::send': V2 | C,
+    # what a peer announces about a body it may never send
+    'reqwest::async_impl::response::Response::content_length': V2,
 }
 CLOSURE_RESULT_ADAPTERS = ('::map', '::filter_map', '::flat_map', '::and_then', '::then', '::map_while')
 BOUNDED_RESULT = ('::binary_search', '::binary_search_by', '::binary_search_by_key', '::position', '::rposition')
@@ -41,7 +43,10 @@ SINK_CALLS = {
     'alloc::vec::from_elem': [1],
     'alloc::vec::Vec::remove': [1], 'alloc::vec::Vec::insert': [1], 'alloc::vec::Vec::swap_remove': [1],
     '[T]::split_at': [1], '[T]::windows': [1], '[T]::chunks': [1],
+    # progress: a concurrency of 0 never polls the inner stream - the pipeline hangs
+    'futures_util::stream::stream::StreamExt::buffered': [1], 'futures_util::stream::stream::StreamExt::buffer_unordered': [1],
 }
+ZERO_HAZARD_CALLS = ('buffered', 'buffer_unordered', 'windows', 'chunks')
 ZERO_HAZARD_FIELDS = {
     ('bitar::chunker::config::FilterConfig', None, 'window_size'), ('bitar::chunker::config::FilterConfig', None, 'max_chunk_size'),
     ('bitar::chunker::config::FilterBits', None, '0'), ('bitar::chunker::config::Config', 'FixedSize', '0'),
@@ -50,6 +55,8 @@ MUST_VALIDATE_FIELDS = {
     ('bitar::chunker::config::FilterConfig', None, 'window_size'), ('bitar::chunker::config::FilterConfig', None, 'min_chunk_size'),
     ('bitar::chunker::config::FilterConfig', None, 'max_chunk_size'), ('bitar::chunker::config::FilterBits', None, '0'),
     ('bitar::chunker::config::Config', 'FixedSize', '0'),
+    # the recorded length of a hash sum indexes its fixed 64 byte array
+    ('bitar::hashsum::HashSum', None, 'length'),
 }
 SOURCE_ADT_PREFIX = 'bitar::chunk_dictionary::'
 
@@ -98,13 +105,20 @@ class Taint:
             return 0
         if k in ('ref', 'rawptr') and ty.get('args'):
             inner = b.ty(ty['args'][0])
-            if self.is_local_adt(inner) or inner.get('k') == 'param':
+            if self.is_local_adt(inner):
                 return 0
-        if k == 'param':
+            if inner.get('k') == 'param' and not self.bytes_like_param(b):
+                return 0
+        if k == 'param' and not self.bytes_like_param(b):
             return 0
         if k == 'adt' and not self.carries(b, ty):
             return 0
         return bits
+
+    def bytes_like_param(self, b):
+        """a generic value is followed only in the conversions of the byte-container types of the crate (`From<T: AsRef<[u8]>>`),
+        where T stands for decoded bytes; elsewhere type parameters are readers / writers / chunkers"""
+        return b.q.endswith(' as core::convert::From>::from') and b.id.startswith('bitar::hashsum::')
 
     def carries(self, b, ty, depth=0):
         """can a value of this (foreign) type contain integers / bytes / collections at all?"""
@@ -381,6 +395,14 @@ class Taint:
         return False
 
     # ------------------------------------------------------------ propagation
+    def from_impls(self, adt):
+        if not hasattr(self, '_from'):
+            self._from = collections.defaultdict(list)
+            for g in self.f.bodies.values():
+                if g.q.startswith('<') and ' as core::convert::From>::from' in g.q:
+                    self._from[g.q[1:g.q.index(' as ')]].append(g)
+        return self._from.get(adt, [])
+
     def impls_of(self, trait_method_q):
         if not hasattr(self, '_impls'):
             self._impls = collections.defaultdict(list)
@@ -512,6 +534,13 @@ class Taint:
             for g in self.impls_of(gq):
                 self.pass_args(b, bi, g, args, lv)
                 res |= self.TR.get(g.id, 0)
+        elif gq in ('core::convert::Into::into', 'core::convert::From::from') and not t['dest']['p'] and \
+                b.lty(t['dest']['l']).get('adt') in f.adts and self.from_impls(b.lty(t['dest']['l'])['adt']):
+            # `x.into()` into a crate-local type runs that type's own From impl
+            res = _or(lv)
+            for g in self.from_impls(b.lty(t['dest']['l'])['adt']):
+                self.pass_args(b, bi, g, args, lv)
+                res |= self.TR.get(g.id, 0)
         elif closure_args and q.endswith(CLOSURE_RESULT_ADAPTERS):
             res = _or([self.TR.get(cb, 0) for _, cb in closure_args]) & VANY
             res |= (lv[0] & C) if lv else 0
@@ -593,7 +622,7 @@ class Taint:
                                     if name in ALLOC and l1 < 2:
                                         continue
                                     if l1:
-                                        g = self.op_sanitised(b, a, bi)
+                                        g = self.op_sanitised(b, a, bi, zero=name in ZERO_HAZARD_CALLS and name in ('buffered', 'buffer_unordered'))
                                         if g is None and a['k'] in ('copy', 'move'):
                                             g = self.range_guard(b, a['pl']['l'], bi)
                                         out.append(self.site(b, name, [a], t['loc'], l1, g is not None, [g]))
